@@ -19,8 +19,10 @@ def forests(n):
     rec(0, [])
     return out
 
-def sched_query(pid, nmax, P, steps, tree=None, solver='minisat', timeout=900, drain=None, tag='', markbusy=False, witness=True, snbreak=1):
-    defs = {'NMAX': nmax, 'P': P, 'STEPS': steps, 'SNODE_BREAK': snbreak}
+def sched_query(pid, nmax, P, steps, tree=None, solver='minisat', timeout=900, drain=None, tag='', markbusy=False, witness=True, snbreak=1, wmax=6):
+    # wmax: panel sizes 1..wmax.  ParallelInit halves the panel width near the top of the tree (SPLIT_TOP: everywhere when
+    # n < 12*panel_size), so regular panels of width 2 / 3 only exist for panel sizes 4..5 / 6..7
+    defs = {'NMAX': nmax, 'P': P, 'STEPS': steps, 'SNODE_BREAK': snbreak, 'WMAX': wmax}
     if markbusy:
         defs['WITH_MARK_BUSY'] = None
     if drain:
@@ -36,6 +38,8 @@ def sched_query(pid, nmax, P, steps, tree=None, solver='minisat', timeout=900, d
     return q
 
 def sched_plan(pid, tier, seed, markbusy=False):
+    from functools import partial
+    sched_query = partial(globals()['sched_query'], wmax=(3 if markbusy else 6))   # C03 (markbusy) keeps panel sizes 1..3: its subject is the busy-descendant bookkeeping
     import random
     rnd = random.Random(seed)
     qs = []
@@ -61,7 +65,7 @@ META = {
     'level': 'model_checking',
     'engines': 'E1: cbmc 6.11 bit-precise, MiniSat; symbolic schedule, symbolic panel size/relax, symbolic or enumerated forest',
     'bounds': {'columns': 'quick: all postordered forests n<=3 (symbolic, one query each) and 6 of the 14 forests with n=4; thorough: + P=3 at n=3, all 14 with n=4, all 42 with n=5',
-               'workers': 'P=2; P=3 for n<=2 (thorough n<=3)', 'panel size': '1..3', 'relax': '1..3',
+               'workers': 'P=2; P=3 for n<=2 (thorough n<=3)', 'panel size': '1..6 (regular panels of width 1..3 after the top-of-tree halving)', 'relax': '1..3',
                'steps': 'symbolic prefix of STEPS scheduler/finish moves followed by a deterministic round-robin drain'},
     'outside': ['instruction-level interleaving inside the scheduler critical section (mutual exclusion trusted to pthreads)',
                 'memory ordering of the volatile spin flags', 'P > 3', 'forests with more than 5 columns',
